@@ -207,3 +207,24 @@ def finish(v: Verdict) -> int:
           f"nontrivial={len(v.nontrivial)} known={sum(known.values())} "
           f"fresh={len(fresh)} wall={ev['wall_s']}s")
     return 1 if fresh else 0
+
+
+def watched_inputs(fn):
+    """numpy arrays a driver closure passes to the library (closure cells holding an ndarray, or an object whose .data is one):
+    returned with a copy each, so that the driver can tell whether the call modified its inputs."""
+    import numpy as _np
+    out = []
+    for cell in (getattr(fn, "__closure__", None) or ()):
+        try:
+            obj = cell.cell_contents
+        except ValueError:
+            continue
+        for cand in (obj, getattr(obj, "_data", None)):
+            if isinstance(cand, _np.ndarray):
+                out.append((cand, cand.copy()))
+    return out
+
+
+def inputs_intact(watched) -> bool:
+    import numpy as _np
+    return all(_np.array_equal(a, snap, equal_nan=True) if a.dtype.kind == "f" else _np.array_equal(a, snap) for a, snap in watched)
